@@ -214,6 +214,33 @@ def check_function(model, rep, fname):
             if any(x[0] == 'store' and x[1] in ('master', 'slave') for x in o.state.effects[:i]):
                 bad.append((e[2], f'division by the possibly-zero `{e[1]}` at line {e[2]} after assignments to master/slave '
                                   f'(ZeroDivisionError would leave a half-declared relation)'))
+    # a truth value computed from caller-supplied numbers is a numpy.bool_ when those are numpy scalars (numpy.float64 IS a float
+    # for isinstance, so the type checks accept it); a setter that insists on `bool` then raises TypeError - after the assignments made
+    # before it.  `bool(...)` around the comparison, or assigning it first, discharges the obligation.
+    top = [x for x in ast.walk(node) if isinstance(x, ast.Assign) and len(x.targets) == 1]
+    attr_assigns = sorted([x for x in top if isinstance(x.targets[0], ast.Attribute)], key=lambda x: x.lineno)
+    locals_ = {}
+    for x in top:
+        if isinstance(x.targets[0], ast.Name):
+            locals_.setdefault(x.targets[0].id, []).append(x.value)
+    for k, x in enumerate(attr_assigns):
+        v = x.value
+        if isinstance(v, ast.Name) and len(locals_.get(v.id, [])) == 1:
+            v = locals_[v.id][0]
+        raw_truth = isinstance(v, (ast.Compare, ast.BoolOp)) or (isinstance(v, ast.UnaryOp) and isinstance(v.op, ast.Not))
+        if not raw_truth or k == 0:
+            continue
+        attr = x.targets[0].attr
+        strict = False
+        for cname, ci in model.classes.items():
+            st_ = ci.setters.get(attr)
+            if st_ is not None and any(isinstance(c, ast.Call) and isinstance(c.func, ast.Name) and c.func.id == 'isinstance' and len(c.args) == 2
+                                       and isinstance(c.args[1], ast.Name) and c.args[1].id == 'bool' for c in ast.walk(st_.node)):
+                strict = True
+        if strict:
+            bad.append((x.lineno, f'`{ast.unparse(x.targets[0])} = {ast.unparse(v)[:50]}`: the value is a raw comparison result - a numpy.bool_ for numpy '
+                                  f'scalar arguments - and the setter of {attr} accepts only bool: TypeError at line {x.lineno} after {k} assignment(s) '
+                                  f'to master/slave were made'))
     if bad:
         seen = set()
         for ln, what in bad:
